@@ -209,7 +209,8 @@ pub fn gen_plan(g: &mut G, max_payload: usize) -> BodyPlan {
     }
     // (no draw) the framing of a body does not depend on the method or on which final status carries it
     let status = [200u16, 200, 201, 206, 400, 404, 500, 503][(len + extra.len()) % 8];
-    let method = ["GET", "POST", "GET", "PUT", "DELETE", "PATCH", "OPTIONS"][(len / 3 + extra.len()) % 7];
+    // (methods are case-sensitive: `head` and `Get` are extension methods whose responses have bodies like any other)
+    let method = ["GET", "POST", "GET", "PUT", "DELETE", "PATCH", "OPTIONS", "head", "Get", "GET", "Head", "POST"][(len / 3 + extra.len()) % 12];
     let mut wire = Wire::default();
     wire.bytes = httpref::encode_head(status, ["OK", "", "Whatever It Takes"][len % 3], &extra);
     // (no draw) an HTTP/1.0 server (length- or close-delimited bodies): same framing rules
